@@ -16,6 +16,9 @@ func Main() {
 		fmt.Fprintln(os.Stderr, "usage: verif check <ID> [--tier quick|thorough] | worker <ID> <tier> <seed> | replay <file> | list")
 		os.Exit(2)
 	}
+	if cmd, ok := engine.Commands[os.Args[1]]; ok {
+		os.Exit(cmd(os.Args[2:]))
+	}
 	switch os.Args[1] {
 	case "worker":
 		seed, _ := strconv.ParseInt(os.Args[4], 10, 64)
